@@ -1,5 +1,30 @@
+"""C09 -- runs always terminate with every planned task accounted for.
+
+proofs : coq/Props/C09.v -- scheduler bookkeeping (progress, no deadlock, accounting, no misattribution, whole pipeline
+         terminates) and the child-reaping protocol (no lost wake-up, every exit handed out exactly once, wait()
+         inevitably returns; the old protocol's lost wake-up as a refuted statement)
+tie    : (a) scheduling engine (real TaskIndex / planner / executor under the fake process layer, several exits per
+             SIGCHLD included) against Model/RunCase.v and the property oracle;
+         (b) the real SigchldHelper under a simulated kernel / signal machinery: every step it takes must be a run of
+             Model/Reaper.v ending in the same state (harness/reaper_model.py);
+         (c) forced schedules on real processes and the real kernel (harness/reaper_util.py).
+"""
 from sched_checks import run_prop
+from reaper_model import protocol_part
 
 
 def run(tier, seed, replay=None):
-    return run_prop("C09", tier, seed, replay)
+    if replay is not None and (replay.get("input") or {}).get("part") == "reaper-protocol":
+        from common import Check
+        from sched_checks import MODEL_TARGETS
+        import reaper_model as rm
+
+        chk = Check("C09", tier, seed)
+        chk.build_proofs(MODEL_TARGETS + ["Model/Reaper.vo"])
+        sched = [tuple(e) for e in replay["input"]["schedule"]]
+        w = rm.run_schedule(sched)
+        print("replay: schedule %r\n  steps %r\n  returned %r, recorded %r, unreaped %r, pipe %d, blocked %s, crash %s" % (sched, w.log, w.returned, w.final_rcs, [z[:2] for z in w.zombies], w.pipe, w.blocked, w.crash))
+        if w.blocked and (w.zombies or w.final_rcs) and not w.kpending:
+            chk.violation("impl-violation", "lost wake-up under the schedule %r" % (sched,), {"input": replay["input"], "impl_observation": {"log": [list(e) for e in w.log]}}, match_key={"reaper": "wait()"}, size=len(sched))
+        return chk.finish()
+    return run_prop("C09", tier, seed, replay, extra_part=protocol_part, extra_targets=["Model/Reaper.vo"])
